@@ -23,6 +23,8 @@ def _write_if_changed(path, text):
 
 
 GENERATORS = []   # list of callables returning (relative file name, text)
+FILENAMES = {'harness.srcgen.c12_digits': 'Digits.lean', 'harness.srcgen.c05_enums': 'Enums.lean',
+             'harness.srcgen.c07_dontcare': 'DontCare.lean', 'harness.srcgen.c04_table': 'CacheTable.lean'}
 
 
 def _register():
@@ -39,7 +41,16 @@ def regenerate():
         _register()
     changed = []
     for g in GENERATORS:
-        name, text = g()
+        try:
+            name, text = g()
+        except Exception as e:  # noqa: BLE001
+            # the source no longer has the shape the extractor understands (a refactoring, or a breaking change): the
+            # generated module is replaced by a stub, so the proof obligations over it stop compiling and the check
+            # goes on to search for a failing input with the driver it already has
+            name = getattr(g, 'FILENAME', None) or FILENAMES.get(g.__module__)
+            if name is None:
+                raise
+            text = ('/- extraction failed: ' + str(e).replace('-/', '- /')[:300] + ' -/\n')
         if _write_if_changed(os.path.join(GEN_DIR, name), text):
             changed.append(name)
     return changed
